@@ -30,6 +30,7 @@ func runC05(c *Ctx) {
 	arms := pairDeadlines(c, "PAIR.deadline", us)
 	c.R.Floor("PAIR.deadline", arms, 8)
 	c.R.Floor("ARMED", armedReads(c, "ARMED", us), 2)
+	narrowArith(c, "WIDTH", us, "port-53 detection, sniffing and relay path")
 
 	c05HalfClose(c)
 	c05Prefix(c)
